@@ -243,7 +243,10 @@ func (d *badgerNodeDB) cleanMultipartLocked(removeNodes bool) error {
 	batch := d.db.NewWriteBatchAt(versionToTs(version))
 	defer batch.Cancel()
 
-	var logged bool
+	var (
+		logged        bool
+		restoredRoots []api.TypedHash
+	)
 	for it.Rewind(); it.Valid(); it.Next() {
 		key := it.Item().Key()
 		if removeNodes {
@@ -265,9 +268,41 @@ func (d *badgerNodeDB) cleanMultipartLocked(removeNodes bool) error {
 				if err := batch.Delete(rootNodeKeyFmt.Encode(&hash)); err != nil {
 					return err
 				}
+				restoredRoots = append(restoredRoots, hash)
 			}
 		}
 		if err := batch.DeleteAt(key, tsMetadata); err != nil {
+			return err
+		}
+	}
+
+	// The roots of the removed restore must also disappear from the roots metadata, otherwise
+	// the database keeps reporting a root whose nodes are gone and a later commit of the same
+	// root is skipped as already present. This is done before the nodes are removed, so that an
+	// interrupted cleanup can simply be repeated (the restore log is still there).
+	if len(restoredRoots) > 0 {
+		rootsTx := d.db.NewTransactionAt(tsMetadata, true)
+		defer rootsTx.Discard()
+		rootsMeta, err := loadRootsMetadata(rootsTx, version)
+		if err != nil {
+			return err
+		}
+		for _, rootHash := range restoredRoots {
+			delete(rootsMeta.Roots, rootHash)
+			if err = rootsTx.Delete(rootUpdatedNodesKeyFmt.Encode(version, &rootHash)); err != nil {
+				return err
+			}
+		}
+		switch len(rootsMeta.Roots) {
+		case 0:
+			err = rootsTx.Delete(rootsMetadataKeyFmt.Encode(version))
+		default:
+			err = rootsMeta.save(rootsTx)
+		}
+		if err != nil {
+			return err
+		}
+		if err = rootsTx.CommitAt(tsMetadata, nil); err != nil {
 			return err
 		}
 	}
